@@ -118,6 +118,7 @@ func lemmaSlotGone(tree *HTree, item *HintItem) bool {
 //@ func lemmaSlotSet
 //@   props C02
 //@   ints math
+//@   nooverflow
 //@   requires item.Ver > 0 && ghostTreeHas[tree][item.Keyhash] && ghostTreeVer[tree][item.Keyhash] == item.Ver && ghostTreeVhash[tree][item.Keyhash] == item.Vhash && ghostTreeChunk[tree][item.Keyhash] == chunkID && ghostTreeOff[tree][item.Keyhash] == item.Pos.Offset
 //@   modifies ghostApplyCount
 //@   ensures result0 && ghostApplyCount == old(ghostApplyCount)+1
@@ -125,6 +126,7 @@ func lemmaSlotGone(tree *HTree, item *HintItem) bool {
 //@ func lemmaSlotGone
 //@   props C02
 //@   ints math
+//@   nooverflow
 //@   requires item.Ver <= 0 && !ghostTreeHas[tree][item.Keyhash]
 //@   modifies ghostApplyCount
 //@   ensures result0 && ghostApplyCount == old(ghostApplyCount)+1
